@@ -220,3 +220,28 @@ func M_getRegex_FindStringSubmatch(s string) []string {
 	}
 	return nil
 }
+
+
+// M_errors_Is: errors.Is without the reflection-based comparability test (the error values the
+// harnesses meet are comparable): identity along the Unwrap chain, or an Is method that says so.
+func M_errors_Is(err, target error) bool {
+	if err == nil || target == nil {
+		return err == target
+	}
+	for {
+		if err == target {
+			return true
+		}
+		if x, ok := err.(interface{ Is(error) bool }); ok && x.Is(target) {
+			return true
+		}
+		u, ok := err.(interface{ Unwrap() error })
+		if !ok {
+			return false
+		}
+		err = u.Unwrap()
+		if err == nil {
+			return false
+		}
+	}
+}
